@@ -221,6 +221,26 @@ class Engine:
         self.covers: list = []
         self.cur_contract = None
 
+    # -- summaries of the access helpers, derived from their real AST ---------------------------
+    def helper_summary(self, name: str) -> dict:
+        """`checked`: the helper uses the bounds-/NULL-checked CPython primitive and tests its result."""
+        cache = self.__dict__.setdefault('_helper_cache', {})
+        if name in cache:
+            return cache[name]
+        fn = self.prog.functions.get(name)
+        res = {'checked': False}
+        if fn is not None:
+            names = {d.name for d in self.walk(fn) if d.k in ('DeclRefExpr', 'UnresolvedLookupExpr', 'CXXDependentScopeMemberExpr')}
+            has_null_test = any(d.k == 'IfStmt' for d in self.walk(fn)) and \
+                any(d.k == 'CXXThrowExpr' for d in self.walk(fn))
+            if name == 'ListGetItemAs':
+                res['checked'] = ('PyList_GetItem' in names or 'PyList_GetItemRef' in names) and has_null_test \
+                    and 'ob_item' not in names
+            if name == 'DictGetItemAs':
+                res['checked'] = ('PyDict_GetItemWithError' in names or 'PyDict_GetItemRef' in names) and has_null_test
+        cache[name] = res
+        return res
+
     # -- obligations ---------------------------------------------------------------------------
     def oblige(self, st: State, cls: str, role: str, goal, line=0, note=''):
         base = f'{self.fn}::{cls}::{role}'
@@ -352,21 +372,21 @@ class Engine:
             vec = st.heap[base.oid]
             if isinstance(vec, NodeVec) and name in M.NODE_FIELDS:
                 v = vec.sel(name, base.idx)
-                return PyObj(v) if M.NODE_FIELDS[name] == Ref and name != 'custom' else v
+                return PyObj(v, stable=True) if M.NODE_FIELDS[name] == Ref and name != 'custom' else v
             if isinstance(vec, PairVec) and name in ('first', 'second'):
                 return z3.Select(vec.a if name == 'first' else vec.b, base.idx)
             return Bound(base, name, n)
         if isinstance(base, NodeVal):
             if name in M.NODE_FIELDS:
                 v = base.get(name)
-                return PyObj(v) if M.NODE_FIELDS[name] == Ref and name != 'custom' else v
+                return PyObj(v, stable=True) if M.NODE_FIELDS[name] == Ref and name != 'custom' else v
         if is_z3(base) and base.sort() == Ref:       # RegistrationPtr -> field
             regf = {'type': M.reg_type, 'path_entry_type': M.reg_pet, 'kind': M.reg_kind,
                     'flatten_func': z3.Function('reg_flatten_func', Ref, Ref),
                     'unflatten_func': z3.Function('reg_unflatten_func', Ref, Ref)}
             if name in regf:
                 v = regf[name](base)
-                return v if name == 'kind' else PyObj(v)
+                return v if name == 'kind' else PyObj(v, stable=True)
         if isinstance(base, Tup) and name in ('first', 'second'):
             return base.items[0 if name == 'first' else 1]
         return Bound(base, name, n)
@@ -835,9 +855,20 @@ class Engine:
         outs = self.ex_block(n.c, st)
         res = []
         for s, o in outs:
-            s.pop()
+            self.leave_scope(s)
             res.append((s, o))
         return res
+
+    def leave_scope(self, s):
+        """RAII: lock guards declared in the scope are released on every exit from it."""
+        held = s.scope.vars.get('__locks__', ())
+        if held:
+            locks = list(s.ghost['locks'])
+            for l in held:
+                if l in locks:
+                    locks.remove(l)
+            s.ghost['locks'] = tuple(locks)
+        s.pop()
 
     def ex_block(self, stmts, st):
         cur = [st]
@@ -1011,14 +1042,14 @@ class Engine:
                     stmts.append((labels, x))
             for x in body.c:
                 flat(x, [])
-            all_vals = [l for labs, _ in stmts for l in labs if l != 'default']
+            all_vals = [l for labs, _ in stmts for l in labs if not isinstance(l, str)]
             # entry points
             entries = []
             for idx, (labs, _) in enumerate(stmts):
                 if labs:
                     conds = []
                     for l in labs:
-                        if l == 'default':
+                        if isinstance(l, str):
                             conds.append(z3.And(*[v != x for x in all_vals]) if all_vals else z3.BoolVal(True))
                         else:
                             conds.append(v == l)
@@ -1036,7 +1067,7 @@ class Engine:
                         o = NORMAL
                     outs.append((s3, o))
             # no matching label and no default: falls out
-            if not any('default' in labs for labs, _ in stmts) and all_vals:
+            if not any(any(isinstance(l, str) for l in labs) for labs, _ in stmts) and all_vals:
                 s2 = s.clone()
                 self.assume(s2, z3.And(*[v != x for x in all_vals]))
                 if self.feasible(s2):
@@ -1053,8 +1084,10 @@ class Engine:
 
     # loops ----------------------------------------------------------------------------------------
     def loop_spec(self, n: N):
-        k = self.loop_ordinal
-        self.loop_ordinal += 1
+        # loop ordinal = pre-order position of the loop statement in its function body (stable under path forking)
+        k = self.loop_ids.get(id(n))
+        if k is None:
+            raise Unsupported('loop outside the indexed function body')
         loops = getattr(self.cur_contract, 'loops', {}) if self.inline_depth == 0 else \
             getattr(self.inline_contract, 'loops', {}) if getattr(self, 'inline_contract', None) else {}
         spec = loops.get(k)
@@ -1247,7 +1280,7 @@ class Engine:
             if x.k == 'CallExpr' and x.c and x.c[0].k == 'DeclRefExpr':
                 fname = x.c[0].name
                 if fname in ('copy', 'reverse', 'TotalOrderSort'):
-                    for a in x.c[1:]:
+                    for a in (x.c[3:4] if fname == 'copy' else x.c[1:]):
                         for d in self.walk(a):
                             if d.k in ('DeclRefExpr',) and d.get('refk') in ('VarDecl', 'ParmVarDecl'):
                                 vars_.add(d.name)
@@ -1414,9 +1447,18 @@ class Engine:
     def e_CXXNoexceptExpr(self, n, st):
         return [(st, z3.BoolVal(True))]
 
+    def index_loops(self, fn: N):
+        self.loop_ids = getattr(self, 'loop_ids', {})
+        k = 0
+        for d in self.walk(fn):
+            if d.k in ('ForStmt', 'WhileStmt', 'CXXForRangeStmt', 'DoStmt'):
+                self.loop_ids[id(d)] = k
+                k += 1
+
     # function execution ------------------------------------------------------------------------------
     def run(self, qname: str, contract) -> list[VC]:
         fn = self.prog.functions[qname]
+        self.index_loops(fn)
         self.fn = qname
         self.cur_contract = contract
         self.loop_ordinal = 0
